@@ -34,11 +34,14 @@ func ruleC05(r *Report) {
 		if !p.InLibrary(f) || f.Pkg == nil || f.Pkg.Pkg.Path() != modPath || !(f.Signature.Results().Len() == 1 && errIndex(f) == 0) {
 			return false
 		}
-		for _, b := range f.Blocks {
-			for _, in := range b.Instrs {
-				if st, ok := in.(*ssa.Store); ok {
-					if fa, ok := st.Addr.(*ssa.FieldAddr); ok && fieldName(fa.X.Type(), fa.Field) == "ACSEndpoint" {
-						return false
+		// the selection step: the function that stores ACSEndpoint, directly or through the walker it drives
+		for _, g := range helperRegion(p, f, 2) {
+			for _, b := range g.Blocks {
+				for _, in := range b.Instrs {
+					if st, ok := in.(*ssa.Store); ok {
+						if fa, ok := st.Addr.(*ssa.FieldAddr); ok && fieldName(fa.X.Type(), fa.Field) == "ACSEndpoint" {
+							return false
+						}
 					}
 				}
 			}
@@ -172,46 +175,87 @@ func checkACS(r *Report, sc *Scope) {
 		blk   *ssa.BasicBlock
 		which string
 		pos   string
+		at    RI
+		rg    *Region
 	}
 	var classified []acsStore
-	for _, fn := range p.modFns {
-		if !p.InLibrary(fn) {
-			continue
+	isACSField := func(in ssa.Instruction) (*ssa.Store, *ssa.FieldAddr, string) {
+		st, ok := in.(*ssa.Store)
+		if !ok {
+			return nil, nil, ""
 		}
-		fc := a.Ctx(fn)
+		fa, ok := st.Addr.(*ssa.FieldAddr)
+		if !ok || !typeIs(fa.X.Type(), modPath, "IdpAuthnRequest") {
+			return nil, nil, ""
+		}
+		field := fieldName(fa.X.Type(), fa.Field)
+		if field != "ACSEndpoint" && field != "SPSSODescriptor" && field != "ServiceProviderMetadata" {
+			return nil, nil, ""
+		}
+		if isNilConst(st.Val) {
+			return nil, nil, ""
+		}
+		return st, fa, field
+	}
+	hasStore := func(fn *ssa.Function) bool {
 		for _, b := range fn.Blocks {
 			for _, in := range b.Instrs {
-				st, ok := in.(*ssa.Store)
-				if !ok {
-					continue
+				if st, _, _ := isACSField(in); st != nil {
+					return true
 				}
-				fa, ok := st.Addr.(*ssa.FieldAddr)
-				if !ok || !typeIs(fa.X.Type(), modPath, "IdpAuthnRequest") {
-					continue
-				}
-				field := fieldName(fa.X.Type(), fa.Field)
-				if field != "ACSEndpoint" && field != "SPSSODescriptor" && field != "ServiceProviderMetadata" {
-					continue
-				}
-				if isNilConst(st.Val) {
-					continue
-				}
-				fc.ensureConds()
-				r.Fn(p.FnName(fn))
-				ap := fc.AP(st.Val)
-				if al, ok := st.Val.(*ssa.Alloc); ok {
+			}
+		}
+		return false
+	}
+	// the functions that write the fields, each seen from the outermost library function it is a helper of (so that a
+	// walker that is handed the selection predicate is judged with the predicates its callers hand it)
+	seenStore := map[string]bool{}
+	for _, root := range maximalRoots(p, hasStore) {
+		rg := NewRegion(p, root, 2)
+		rg.Each(func(x RI) {
+			in := x.I
+			st, fa, field := isACSField(in)
+			if st == nil {
+				return
+			}
+			fn := in.Parent()
+			b := in.Block()
+			fc := rg.Ctx(a, x.C)
+			fc.ensureConds()
+			if fc.AbsCond(b) == B.False {
+				return
+			}
+			r.Fn(p.FnName(fn))
+			reqRoot := fc.AP(fa.X)
+			for _, o := range rg.Origins(RV{V: st.Val, C: x.C}) {
+				ofc := rg.Ctx(a, o.C)
+				ap := ofc.AP(o.V)
+				if al, ok := o.V.(*ssa.Alloc); ok {
 					// &copy where copy := element: name the copy by what was copied into it
 					if iv := initStore(al); iv != nil {
-						ap = fc.AP(iv)
+						ap = ofc.AP(iv)
 					}
 				}
-				reqRoot := fc.AP(fa.X)
+				cnd := fc.AbsCond(b)
+				for _, vb := range o.Via {
+					vfc := rg.Ctx(a, vb.C)
+					vfc.ensureConds()
+					cnd = B.And(cnd, vfc.AbsCond(vb.B))
+				}
+				if cnd == B.False {
+					continue
+				}
+				key := p.InstrPos(in) + "|" + ap + "|" + a.canon(cnd)
+				if seenStore[key] {
+					continue
+				}
+				seenStore[key] = true
 				cons := fmt.Sprintf("%s: store to %s.%s <- %s", p.FnName(fn), "IdpAuthnRequest", field, ap)
 				switch field {
 				case "ServiceProviderMetadata":
 					// result of the registry under err == nil (or the direct Extract #0 in ServeIDPInitiated, checked right after)
 					okS := false
-					if ex, ok := st.Val.(*ssa.Extract); ok && ex.Index == 0 {
+					if ex, ok := o.V.(*ssa.Extract); ok && ex.Index == 0 {
 						if c, ok := ex.Tuple.(*ssa.Call); ok && c.Call.IsInvoke() && c.Call.Method.Name() == "GetServiceProvider" {
 							okS = true
 						}
@@ -273,7 +317,6 @@ func checkACS(r *Report, sc *Scope) {
 					isDefault := B.And(lit("isnil("+ep+".IsDefault)", false), lit("b:"+ep+".IsDefault", true))
 					byDefault := B.And(none, B.And(isDefault, browser))
 					byAny := B.And(none, browser)
-					cnd := fc.Cond(b)
 					gc := fmt.Sprintf("%s: endpoint store guarded by an allowed selection rule", p.FnName(fn))
 					var which string
 					switch {
@@ -285,18 +328,18 @@ func checkACS(r *Report, sc *Scope) {
 						which = "no index/URL requested, default endpoint with browser binding"
 					case B.Implies(cnd, byAny):
 						which = "no index/URL requested, browser binding"
-					case !isMethodOf(fn, "IdpAuthnRequest") && B.Implies(cnd, post):
+					case !isMethodOf(root, "IdpAuthnRequest") && B.Implies(cnd, post):
 						which = "IdP-initiated: POST binding"
 					}
 					if which != "" {
-						classified = append(classified, acsStore{fn, b, which, p.InstrPos(in)})
+						classified = append(classified, acsStore{fn, b, which, p.InstrPos(in), x, rg})
 						r.add(&Obligation{Rule: "C05.acs-guards", Construct: gc + " [" + which + "]", Pos: p.InstrPos(in), Verdict: "discharged", NonTrivial: true, Detail: which})
 					} else {
 						r.Bad("C05.acs-guards", gc+" ["+p.InstrPos(in)+"]", p.InstrPos(in), "the store is reachable under a condition that matches none of the documented selection rules: "+a.canon(cnd))
 					}
 				}
 			}
-		}
+		})
 	}
 	// priority: the "any browser-binding endpoint" choice is made only after the scan for a default endpoint is complete
 	// (no loop contains both choices, and the default scan comes first)
@@ -305,7 +348,13 @@ func checkACS(r *Report, sc *Scope) {
 			continue
 		}
 		for _, n := range classified {
-			if n.fn != d.fn || n.which != "no index/URL requested, browser binding" {
+			if n.fn != d.fn || n.which != "no index/URL requested, browser binding" || n.rg != d.rg {
+				continue
+			}
+			if n.at.C != d.at.C {
+				// the two choices are made by two calls of a walker: the call that looks for a default comes first
+				okOrd := d.rg.Before(d.at, n.at)
+				r.Check(okOrd, "C05.acs-guards", fmt.Sprintf("%s: the default endpoint takes precedence over the first browser-binding endpoint", p.FnName(d.fn)), n.pos, "the pass that looks for a default endpoint runs before the fallback pass", fmt.Sprintf("the fallback endpoint choice at %s is not made after the default-endpoint pass at %s", n.pos, d.pos))
 				continue
 			}
 			shared := false
@@ -351,6 +400,47 @@ func checkACS(r *Report, sc *Scope) {
 			r.Check(ok, "C05.acs-guards", fmt.Sprintf("%s: success return only after an endpoint store [%s]", p.FnName(fn), p.InstrPos(ret)), p.InstrPos(ret), "store in the returning block", "the selection function reports success without having selected a registered endpoint")
 		}
 	}
+}
+
+// maximalRoots: the library functions whose region (the function with the unexported helpers of its package it calls,
+// bound 2) contains a function satisfying has, minus those that are themselves inside another such function's region.
+func maximalRoots(p *Prog, has func(*ssa.Function) bool) []*ssa.Function {
+	var cands []*ssa.Function
+	regions := map[*ssa.Function][]*ssa.Function{}
+	for _, fn := range p.modFns {
+		if !p.InLibrary(fn) || len(fn.Blocks) == 0 || fn.Parent() != nil {
+			continue
+		}
+		reg := helperRegion(p, fn, 2)
+		ok := false
+		for _, f := range reg {
+			if has(f) {
+				ok = true
+			}
+		}
+		if ok {
+			cands = append(cands, fn)
+			regions[fn] = reg
+		}
+	}
+	var out []*ssa.Function
+	for _, f := range cands {
+		inner := false
+		for _, g := range cands {
+			if g == f {
+				continue
+			}
+			for _, h := range regions[g] {
+				if h == f {
+					inner = true
+				}
+			}
+		}
+		if !inner {
+			out = append(out, f)
+		}
+	}
+	return out
 }
 
 func isMethodOf(fn *ssa.Function, typeName string) bool {
